@@ -387,6 +387,31 @@ func checkStacks(c *engine.Ctx, rule string) {
 		}
 		// (d) key class
 		want, known := stackKeyClass[rname]
+		if !known {
+			// a builder extracted out of a tabled one (unexported, called from it): it inherits the caller's pairing
+			if robj, _ := root.Object().(*types.Func); robj != nil && !robj.Exported() {
+				classes := map[string]bool{}
+				for _, g := range p.RepoFuncs() {
+					if len(engine.CallsTo(g, robj)) == 0 {
+						continue
+					}
+					gr := g
+					for gr.Parent() != nil {
+						gr = gr.Parent()
+					}
+					if cls, ok := stackKeyClass[p.FuncName(gr)]; ok {
+						classes[cls] = true
+					} else {
+						classes["?"] = true
+					}
+				}
+				if len(classes) == 1 && !classes["?"] {
+					for cls := range classes {
+						want, known = cls, true
+					}
+				}
+			}
+		}
 		got := keyClass(enc.Call.Args[1])
 		if !known {
 			c.Undecide(name+">key", enc.Pos(), "new stack builder %s: its key class pairing is not in the confirmed table", rname)
